@@ -47,6 +47,18 @@ def cstmt(s):
     return ['unknown', k]
 
 
+def _wreck(x):
+    if isinstance(x, dict):
+        for v in list(x.values()):
+            _wreck(v)
+        x.clear()
+        x['wrecked'] = True
+    elif isinstance(x, list):
+        for v in x:
+            _wreck(v)
+        x.clear()
+
+
 def main():
     sys.setrecursionlimit(10000)
     out = []
@@ -63,7 +75,14 @@ def main():
         res = {}
         try:
             script = parse_script(src, start) if 'start' in case else parse_script(src)
-            res['ok'] = [cstmt(s) for s in script['statements']]
+            res['ok'] = json.loads(json.dumps([cstmt(s) for s in script['statements']]))       # (a copy that shares nothing with the model)
+            if case.get('twice') and kind in ('list', 'tuple'):
+                # "deterministic, no state between calls": wreck the first result in place, parse the same source again
+                _wreck(script)
+                script2 = parse_script(src, start) if 'start' in case else parse_script(src)
+                if json.loads(json.dumps([cstmt(s) for s in script2['statements']])) != res['ok']:
+                    res['state_leak'] = True
+                script = script2
             if case.get('validate'):
                 try:
                     before = copy.deepcopy(script)
